@@ -149,6 +149,11 @@ func (f *FieldCopyFromGenerator) genListOrMapIterator(g *j.Group, typ *j.Stateme
 			).Else().BlockFunc(els)
 		})
 	})
+
+	// A null or unknown value may still carry elements: they must not size the target
+	g.If(j.Id("v.Null || v.Unknown")).Block(
+		j.Id(objFieldName).Op("=").Make(j.Id(f.i.WithType(f.GoType)), j.Lit(0)),
+	)
 }
 
 // genPrimitive generates CopyFrom fragment for a primitive field, wrapped by oneOf extraction
